@@ -166,7 +166,8 @@ def _pick(lst, k, spread=7):
 def answer(w, name, a, b):
     """One query on world w.  Returns comparable data; exceptions are part of the answer."""
     try:
-        return _answer(w, name, a, b)
+        with core.guard(20):
+            return _answer(w, name, a, b)
     except Exception as ex:                     # noqa
         return ('exc', type(ex).__name__)
 
@@ -413,7 +414,8 @@ def start(w, kind, a, b):
 def _take(it, k):
     """k-th next(): item or ('stop',) / ('exc', type)."""
     try:
-        return next(it)
+        with core.guard(20):
+            return next(it)
     except StopIteration:
         return ('stop',)
     except Exception as ex:                     # noqa
@@ -499,6 +501,9 @@ def histories(run):
         import time as _t
         _t0 = _t.time()
         for hi, h in enumerate(mine):
+            if run.nviol >= 300:
+                run.notes.append('api %s: replay stopped after %d violations (verdict decided)' % (rel, run.nviol))
+                break
             w = World(data, cat)
             gens = []
             for si, op in enumerate(h):
@@ -515,7 +520,8 @@ def histories(run):
                         run.validated += 1
                 elif op['op'] == 'start':
                     try:
-                        gens.append([start(w, op['name'], op['a'], op['b']), op['name'], op['a'], op['b'], 0, False])
+                        with core.guard(20):
+                            gens.append([start(w, op['name'], op['a'], op['b']), op['name'], op['a'], op['b'], 0, False])
                     except Exception as ex:             # noqa
                         gens.append([iter([('exc', type(ex).__name__)]), op['name'], op['a'], op['b'], 0, False])
                 elif op['op'] == 'advance':
